@@ -359,7 +359,9 @@ func judgeFailOpen(r *Run, j *Judged, c *cls) {
 			// which read was hit decides what the cache could still know; a failed index read or a failed entry read both force a miss
 			usedStoreAfter := false
 			for _, s := range e.Store {
-				if s.Fg && s.Kind == "get" && s.Seq > faulted.Seq && s.Fault == "" && s.Err == "" && !s.IsIndex {
+				// (before or after the faulted read: an index read may also fail after the entry was read and
+				// validated - the cache then still holds what it read)
+				if s.Fg && s.Kind == "get" && s != faulted && s.Fault == "" && s.Err == "" && !s.IsIndex {
 					usedStoreAfter = true
 				}
 			}
@@ -1087,8 +1089,14 @@ func (r *Run) validationChain(B *OResp, before uint64) (hdr http.Header, last *O
 		hdr.Set("Date", r.httpTime(B.TResp)) // RFC 9110 §6.6.1: a recipient with a clock records the time of receipt
 	}
 	et, lm := B.Header.Get("Etag"), B.Header.Get("Last-Modified")
+	// variants of one URI may share their validators (no ETag, one Last-Modified): where the resource's Vary
+	// never changes, a 304 belongs to B's chain only if its request selects B's variant
+	vary, stable := r.varyStable(B.Res)
 	for _, o := range r.OResps {
 		if !o.Is304 || o.Res != B.Res || o.SeqResp <= B.SeqResp || o.SeqResp >= before {
+			continue
+		}
+		if stable && classKey(vary, o.Req.Header) != classKey(vary, B.Req.Header) {
 			continue
 		}
 		inm, ims := o.Req.Header.Get("If-None-Match"), o.Req.Header.Get("If-Modified-Since")
@@ -1229,12 +1237,23 @@ func judgeSWR(r *Run, j *Judged, c *cls) {
 			since = append(since, o)
 		}
 	}
+	// (a validation works with the validators its exchange read from the store when it was invoked - for a
+	// background one that is before the caller was answered, well before the origin call starts)
+	began := func(c *UpCall) uint64 {
+		if x := r.exchFor(c.Owner, c.OwnerOp); x != nil && x.SeqInv != 0 && x.SeqInv < c.SeqStart {
+			return x.SeqInv
+		}
+		return c.SeqStart
+	}
 	for i, a := range since {
 		if !a.Ended || r.lastSeqOfLineage(a) > e.SeqInv {
 			exact = false
 		}
+		if c.B.Call != nil && began(a) < r.lastSeqOfLineage(c.B.Call) {
+			exact = false // it began before B itself was stored: it carries validators of what B replaced
+		}
 		for _, b := range since[i+1:] {
-			if b.SeqStart < r.lastSeqOfLineage(a) {
+			if began(b) < r.lastSeqOfLineage(a) {
 				exact = false
 			}
 		}
